@@ -638,9 +638,19 @@ Channel(fmt, t) == IF fmt = "yaml" THEN YamlChannel(t) ELSE t
 (* C02: what "the same configuration after save and load" means *)
 \* persistent values equal, modulo the two stated normalisations: an unset typed list/dict
 \* may come back empty, an empty secret comes back unset
+\* equality of values as Python sees it: maps are equal whatever the order of their entries (at
+\* any depth, also inside untyped values - YAML writes keys sorted)
+RECURSIVE EqV(_, _)
+EqV(x, y) ==
+    IF x.t = "dict" /\ y.t = "dict" THEN
+        /\ Len(x.kv) = Len(y.kv)
+        /\ \A j \in DOMAIN x.kv : \E i \in DOMAIN y.kv : EqV(x.kv[j][1], y.kv[i][1]) /\ EqV(x.kv[j][2], y.kv[i][2])
+    ELSE IF x.t \in {"list", "tuple"} /\ y.t = x.t THEN
+        Len(x.l) = Len(y.l) /\ \A j \in DOMAIN x.l : EqV(x.l[j], y.l[j])
+    ELSE y = x
 RECURSIVE SameLeaf(_, _, _)
 SameLeaf(f, x, y) ==
-    \/ y = x
+    \/ EqV(x, y)
     \/ IsNone(x) /\ f.kind = "list" /\ y = ListV(<<>>)
     \/ IsNone(x) /\ f.kind = "dict" /\ y = DictV(<<>>)
     \/ f.kind = "secure" /\ ~Truthy(x) /\ IsNone(y)
